@@ -4,6 +4,7 @@ import Hgxv.Proofs.C19W
 import Hgxv.Proofs.C19B
 import Hgxv.Proofs.C19P
 import Hgxv.Proofs.C19S
+import Hgxv.Proofs.C19LinkC02
 /-! # C19 - filters keep exactly what the criteria say; validation p-values follow the definition
 
 Model: `Hgxv/Model/C19.lean`.  Part A is generic in the container (`KeyOps κ`: `nodesOf`, `shrink`) and in the
@@ -240,7 +241,10 @@ theorem C19_filter_keep_weight {κ ω : Type} [DecidableEq κ] [AddCommMonoid ω
 
 /-- `filter_hypergraph` returns: in the model with rejections (`remove_node` raises on an absent node, `remove_edge`
 on an absent key) no call made by the filter is rejected, and the result is the one characterised above.
-(Exceptions of other kinds - the `TypeError`s of D12/D15 - are outside the model; the harness observes them.) -/
+(Exceptions of other kinds - the `TypeError`s of D12/D15 - are outside the model; the harness observes them.
+For `opsD` the content model speaks about the code only when no hyperedge has a node on both sides - the quantifier of
+C02 / C19 and part of the C02 invariant; with such a hyperedge `DirectedHypergraph.remove_node` raises, see
+`C19_link_C02_overlap`.) -/
 theorem C19_filter_returns {κ ω : Type} [DecidableEq κ] [Add ω] (ops : KeyOps κ) (hlaw : Lawful ops)
     (c : Content κ ω) (hwf : WF ops c) (nc ec : Option Crit) (mode : Mode) (keepEdges : Bool) :
     filterHg? ops c nc ec mode keepEdges = some (filterHg ops c nc ec mode keepEdges) :=
@@ -463,3 +467,295 @@ example : threshold [3/100, 3/100, 3/100] (1/80) = 3/80 ∧ validated [3/100, 3/
 /-- p_(1) = 1/50 ≥ 1/60 but p_(2) = 1/40 < 2/60: both validated -/
 example : threshold [1/40, 1/50] (1/60) = 1/30 ∧ validated [1/40, 1/50] (1/60) (1/50) = true := by
   norm_num [validated, threshold, stepUp, List.mergeSort, List.merge]
+
+/-! ## Links to the full container models C01 … C04
+
+`Proofs/C19LinkBase.lean`, `C19LinkC01 … C19LinkC04.lean`.  `ofSpec0x : C0x.Spec → Content Key Int` reads the abstract
+state of a container model (C01 `Hypergraph`, C02 `DirectedHypergraph`, C03 `TemporalHypergraph`, C04
+`MultiplexHypergraph`) as C19 content (`view0x s = ofSpec0x (C0x.abs s)` for a concrete store; weights are the models'
+`Int` quanta, metadata values `v` become `some v`).  Hypothesis `C0x.Inv s` (`Inv02 s = C02.Inv ∧ C02.Ord ∧ C02.Unw` for
+C02) is the class invariant C01 … C04 prove for every reachable object (`C19_link_reachable`); `WF`, `Lawful`, distinct
+keys are discharged from it. -/
+
+/-- criteria read the container's metadata: `metadata.get(attr)` on the image is the plain lookup -/
+theorem C19_link_mdGet (m : List (Nat × Nat)) (a : Nat) : mdGet (mdOf m) a = AL.get? m a := mdGet_mdOf m a
+
+/-- every object reachable by a history of well-formed public calls of the four full models satisfies the
+hypothesis of the link theorems, and its content is well formed in C19's sense -/
+theorem C19_link_reachable :
+    (∀ (k : Nat) (cs : List C01.Cmd), (∀ c ∈ cs, c.WF) → ∀ s ∈ C01.run (C01.init k) cs,
+      C01.Inv s ∧ WF opsH (view01 s)) ∧
+    (∀ (cs : List C02.Cmd), (∀ c ∈ cs, c.WF) → ∀ slot s, AL.get? (C02.runCmds [] cs) slot = some s →
+      Inv02 s ∧ WF opsD (view02 s)) ∧
+    (∀ (s : C03.Store), C03.Reachable s → C03.Inv s ∧ WF opsT (view03 s)) ∧
+    (∀ (w : Bool) (hm : C04.HMeta) (ops : List C04.Op), (∀ op ∈ ops, op.WF) →
+      C04.Inv (C04.run (C04.init w hm) ops) ∧ WF opsT (view04 (C04.run (C04.init w hm) ops))) := by
+  refine ⟨?_, ?_, ?_, ?_⟩
+  · intro k cs hwf s hs
+    have h := C01.run_inv cs (C01.init k) hwf (C01.init_inv k) s hs
+    exact ⟨h, (dyn01_of_inv s h).wf⟩
+  · intro cs hcs slot s hs
+    obtain ⟨h, o, u⟩ := C02.runCmds_all [] cs hcs (fun _ _ h => by simp [AL.get?] at h)
+      (fun _ _ h => by simp [AL.get?] at h) (fun _ _ h => by simp [AL.get?] at h)
+    have h2 : Inv02 s := ⟨h slot s hs, o slot s hs, u slot s hs⟩
+    exact ⟨h2, (dyn02_of_inv s h2).wf⟩
+  · intro s hr
+    have h := C03.reachable_inv hr
+    exact ⟨h, (dyn03_of_inv s h).wf⟩
+  · intro w hm ops hw
+    have h := C04.run_inv _ ops (C04.inv_init w hm) hw
+    exact ⟨h, (dyn04_of_inv _ h).wf⟩
+
+/-- **C01, call by call.**  On the abstract `Hypergraph` of a store satisfying the invariant, `remove_node(n, keep_edges)`
+and `remove_edge(raw)` of `C01.Spec` are C19's content operations under `ofSpec01`, accepted exactly when C19's checked
+twins `removeNode?` / `removeEdge?` accept; a rejected call leaves the state as it is. -/
+theorem C19_link_C01_calls (s : C01.Store) (h : C01.Inv s) (n : Node) (keep : Bool) (raw : List Nat) :
+    let a := C01.abs s
+    (((C01.Spec.removeNode a n keep).2 = .ok ↔ (removeNode? opsH keep (ofSpec01 a) n).isSome) ∧
+     ((C01.Spec.removeNode a n keep).2 = .ok →
+        ofSpec01 (C01.Spec.removeNode a n keep).1 = removeNode opsH keep (ofSpec01 a) n) ∧
+     ((C01.Spec.removeNode a n keep).2 = .rej → (C01.Spec.removeNode a n keep).1 = a)) ∧
+    (((C01.Spec.removeEdge a raw).2 = .ok ↔ (removeEdge? (ofSpec01 a) (keyH (C01.canon raw))).isSome) ∧
+     ((C01.Spec.removeEdge a raw).2 = .ok →
+        ofSpec01 (C01.Spec.removeEdge a raw).1 = removeEdge (ofSpec01 a) (keyH (C01.canon raw))) ∧
+     ((C01.Spec.removeEdge a raw).2 = .rej → (C01.Spec.removeEdge a raw).1 = a)) := by
+  intro a
+  have hd := dyn01_of_inv s h
+  obtain ⟨l1, l2⟩ := removeNode01 a hd n keep
+  obtain ⟨e1, e2⟩ := removeEdge01 a raw (keys_nodup_of_mapKV keyH recOf _ hd.wf.keysNodup)
+  have hpres : (AL.get? (ofSpec01 a).nodes n).isSome = (AL.get? a.nodes n).isSome := by
+    simp only [nodes01_get, Option.isSome_map]
+  constructor
+  · unfold removeNode?
+    rw [hpres]
+    by_cases hn : (AL.get? a.nodes n).isSome = true
+    · obtain ⟨a1, a2⟩ := l1 hn
+      simp [hn, a1, a2]
+    · have hnf : (AL.get? a.nodes n).isSome = false := by simpa using hn
+      simp [hnf, l2 hnf]
+  · unfold removeEdge?
+    by_cases hp : (AL.get? (ofSpec01 a).edges (keyH (C01.canon raw))).isSome = true
+    · obtain ⟨a1, a2⟩ := e1 hp
+      simp [hp, a1, a2]
+    · have hpf : (AL.get? (ofSpec01 a).edges (keyH (C01.canon raw))).isSome = false := by simpa using hp
+      simp [hpf, e2 hpf]
+
+/-- **C02, call by call** (keys with sorted sides; the invariant includes "no node on both sides", see
+`C19_link_C02_overlap` for what happens without it). -/
+theorem C19_link_C02_calls (s : C02.Store) (h : Inv02 s) (n : Node) (keep : Bool) (k : Key)
+    (hk : k.1.Pairwise (· ≤ ·) ∧ k.2.Pairwise (· ≤ ·)) :
+    let a := C02.abs s
+    (((C02.Spec.removeNode a n keep).2 = .ok ↔ (removeNode? opsD keep (ofSpec02 a) n).isSome) ∧
+     ((C02.Spec.removeNode a n keep).2 = .ok →
+        ofSpec02 (C02.Spec.removeNode a n keep).1 = removeNode opsD keep (ofSpec02 a) n) ∧
+     ((C02.Spec.removeNode a n keep).2 = .rej → (C02.Spec.removeNode a n keep).1 = a)) ∧
+    (((C02.Spec.removeEdge a (C02.RawEdge.ofKey k)).2 = .ok ↔ (removeEdge? (ofSpec02 a) k).isSome) ∧
+     ((C02.Spec.removeEdge a (C02.RawEdge.ofKey k)).2 = .ok →
+        ofSpec02 (C02.Spec.removeEdge a (C02.RawEdge.ofKey k)).1 = removeEdge (ofSpec02 a) k) ∧
+     ((C02.Spec.removeEdge a (C02.RawEdge.ofKey k)).2 = .rej → (C02.Spec.removeEdge a (C02.RawEdge.ofKey k)).1 = a)) := by
+  intro a
+  have hd := dyn02_of_inv s h
+  obtain ⟨l1, l2⟩ := removeNode02 a hd n keep
+  obtain ⟨e1, e2⟩ := removeEdgeKey02 a k
+  have hpres : (AL.get? (ofSpec02 a).nodes n).isSome = (AL.get? a.nodes n).isSome := by
+    simp only [nodes02_get, Option.isSome_map]
+  constructor
+  · unfold removeNode?
+    rw [hpres]
+    by_cases hn : (AL.get? a.nodes n).isSome = true
+    · obtain ⟨a1, a2⟩ := l1 hn
+      simp [hn, a1, a2]
+    · have hnf : (AL.get? a.nodes n).isSome = false := by simpa using hn
+      simp [hnf, l2 hnf]
+  · unfold removeEdge?
+    rw [removeEdge02 a k hk]
+    by_cases hp : (AL.get? (ofSpec02 a).edges k).isSome = true
+    · obtain ⟨a1, a2⟩ := e1 hp
+      simp [hp, a1, a2]
+    · have hpf : (AL.get? (ofSpec02 a).edges k).isSome = false := by simpa using hp
+      simp [hpf, e2 hpf]
+
+/-- the corner outside the invariant, where the two semantics differ: `add_edge(((1,2),(1,3)))` is accepted; then
+`remove_node(1)` is REJECTED by the abstract `DirectedHypergraph` in both modes (as by the code: the hyperedge is listed
+once per role, the second `remove_edge` raises `ValueError`), while C19's content model - which lists it once - accepts.
+The content of that state violates the invariant (node 1 on both sides), so no link theorem speaks about it. -/
+theorem C19_link_C02_overlap :
+    let a := (C02.Spec.addEdge {} (C02.RawEdge.ofLists [1, 2] [1, 3]) none none).1
+    (C02.Spec.addEdge {} (C02.RawEdge.ofLists [1, 2] [1, 3]) none none).2 = .ok ∧
+    (C02.Spec.removeNode a 1 false).2 = .rej ∧ (C02.Spec.removeNode a 1 true).2 = .rej ∧
+    (removeNode? opsD true (ofSpec02 a) 1).isSome = true ∧ ¬ Dyn02 (ofSpec02 a) := overlap02_rejected
+
+/-- **C03, call by call.** -/
+theorem C19_link_C03_calls (s : C03.Store) (h : C03.Inv s) (n : Node) (keep : Bool) (k : C03.Key) :
+    let a := C03.abs s
+    (((C03.Spec.removeNode a n keep).2 = .ok ↔ (removeNode? opsT keep (ofSpec03 a) n).isSome) ∧
+     ((C03.Spec.removeNode a n keep).2 = .ok →
+        ofSpec03 (C03.Spec.removeNode a n keep).1 = removeNode opsT keep (ofSpec03 a) n) ∧
+     ((C03.Spec.removeNode a n keep).2 = .rej → (C03.Spec.removeNode a n keep).1 = a)) ∧
+    (((C03.Spec.removeKey a k).2 = .ok ↔ (removeEdge? (ofSpec03 a) (keyT k)).isSome) ∧
+     ((C03.Spec.removeKey a k).2 = .ok → ofSpec03 (C03.Spec.removeKey a k).1 = removeEdge (ofSpec03 a) (keyT k)) ∧
+     ((C03.Spec.removeKey a k).2 = .rej → (C03.Spec.removeKey a k).1 = a)) := by
+  intro a
+  have hd := dyn03_of_inv s h
+  obtain ⟨l1, l2⟩ := removeNode03 a hd n keep
+  obtain ⟨e1, e2⟩ := removeKey03 a k
+  have hpres : (AL.get? (ofSpec03 a).nodes n).isSome = (AL.get? a.nodes n).isSome := by
+    simp only [nodes03_get, Option.isSome_map]
+  constructor
+  · unfold removeNode?
+    rw [hpres]
+    by_cases hn : (AL.get? a.nodes n).isSome = true
+    · obtain ⟨a1, a2⟩ := l1 hn
+      simp [hn, a1, a2]
+    · have hnf : (AL.get? a.nodes n).isSome = false := by simpa using hn
+      simp [hnf, l2 hnf]
+  · unfold removeEdge?
+    by_cases hp : (AL.get? (ofSpec03 a).edges (keyT k)).isSome = true
+    · obtain ⟨a1, a2⟩ := e1 hp
+      simp [hp, a1, a2]
+    · have hpf : (AL.get? (ofSpec03 a).edges (keyT k)).isSome = false := by simpa using hp
+      simp [hpf, e2 hpf]
+
+/-- **C04, call by call.** -/
+theorem C19_link_C04_calls (s : C04.Store) (h : C04.Inv s) (n : Node) (keep : Bool) (raw : List Nat) (l : C04.Layer) :
+    let a := C04.abs s
+    (((C04.Spec.removeNode a n keep).2 = .ok ↔ (removeNode? opsT keep (ofSpec04 a) n).isSome) ∧
+     ((C04.Spec.removeNode a n keep).2 = .ok →
+        ofSpec04 (C04.Spec.removeNode a n keep).1 = removeNode opsT keep (ofSpec04 a) n) ∧
+     ((C04.Spec.removeNode a n keep).2 = .rej → (C04.Spec.removeNode a n keep).1 = a)) ∧
+    (((C04.Spec.removeEdge a raw l).2 = .ok ↔ (removeEdge? (ofSpec04 a) (keyM (C04.canon raw, l))).isSome) ∧
+     ((C04.Spec.removeEdge a raw l).2 = .ok →
+        ofSpec04 (C04.Spec.removeEdge a raw l).1 = removeEdge (ofSpec04 a) (keyM (C04.canon raw, l))) ∧
+     ((C04.Spec.removeEdge a raw l).2 = .rej → (C04.Spec.removeEdge a raw l).1 = a)) := by
+  intro a
+  have hd := dyn04_of_inv s h
+  obtain ⟨l1, l2⟩ := removeNode04 a hd n keep
+  obtain ⟨e1, e2⟩ := removeEdge04 a raw l (keys_nodup_of_mapKV keyM recOf _ hd.wf.keysNodup)
+  have hpres : (AL.get? (ofSpec04 a).nodes n).isSome = (AL.get? a.nodes n).isSome := by
+    simp only [nodes04_get, Option.isSome_map]
+  constructor
+  · unfold removeNode?
+    rw [hpres]
+    by_cases hn : (AL.get? a.nodes n).isSome = true
+    · obtain ⟨a1, a2⟩ := l1 hn
+      simp [hn, a1, a2]
+    · have hnf : (AL.get? a.nodes n).isSome = false := by simpa using hn
+      simp [hnf, l2 hnf]
+  · unfold removeEdge?
+    by_cases hp : (AL.get? (ofSpec04 a).edges (keyM (C04.canon raw, l))).isSome = true
+    · obtain ⟨a1, a2⟩ := e1 hp
+      simp [hp, a1, a2]
+    · have hpf : (AL.get? (ofSpec04 a).edges (keyM (C04.canon raw, l))).isSome = false := by simpa using hp
+      simp [hpf, e2 hpf]
+
+/-- **`filter_hypergraph` on the objects of the four full models.**  `filterVia view rmNode rmEdge` is the run of public
+calls the filter makes on an object (`remove_node(n, keep_edges)` for the nodes listed from the object's content, then
+`remove_edge` for the hyperedges listed from the object left by the node phase; `rmNode0x` / `rmEdge0x` are the models'
+`apply … (.removeNode ..)` / `(.removeEdge ..)` with their verdicts).  For every object satisfying the class invariant:
+no call is rejected, the invariant holds afterwards, and the content of the resulting object is `filterHg` of the content
+of the input - so `C19_filter`, `C19_filter_keep`, `C19_filter_keep_weight`, `C19_filter_returns` speak about the
+objects of the full models (`C19_link_words_*` below spell that out). -/
+theorem C19_link_filter (nc ec : Option Crit) (mode : Mode) (keep : Bool) :
+    (∀ s, C01.Inv s →
+      let r := filterVia view01 (rmNode01 keep) rmEdge01 s nc ec mode
+      r.2 = true ∧ C01.Inv r.1 ∧ view01 r.1 = filterHg opsH (view01 s) nc ec mode keep) ∧
+    (∀ s, Inv02 s →
+      let r := filterVia view02 (rmNode02 keep) rmEdge02 s nc ec mode
+      r.2 = true ∧ Inv02 r.1 ∧ view02 r.1 = filterHg opsD (view02 s) nc ec mode keep) ∧
+    (∀ s, C03.Inv s →
+      let r := filterVia view03 (rmNode03 keep) rmEdge03 s nc ec mode
+      r.2 = true ∧ C03.Inv r.1 ∧ view03 r.1 = filterHg opsT (view03 s) nc ec mode keep) ∧
+    (∀ s, C04.Inv s →
+      let r := filterVia view04 (rmNode04 keep) rmEdge04 s nc ec mode
+      r.2 = true ∧ C04.Inv r.1 ∧ view04 r.1 = filterHg opsT (view04 s) nc ec mode keep) :=
+  ⟨fun s h => filter01 s h nc ec mode keep, fun s h => filter02 s h nc ec mode keep,
+   fun s h => filter03 s h nc ec mode keep, fun s h => filter04 s h nc ec mode keep⟩
+
+/-- **`keep_edges=False` in the property's words, on the objects.**  `c` = content of the object before, `c'` = content
+of the object after the filter's calls (any of the four models: `ops`, `c`, `c'` as delivered by `C19_link_filter`):
+the nodes are exactly the nodes passing the node criteria, the hyperedges exactly those passing the hyperedge criteria and
+containing no removed node, each with its weight and metadata. -/
+theorem C19_link_words_drop (ops : KeyOps Key) (c c' : Content Key Int) (hwf : WF ops c) (nc ec : Option Crit)
+    (mode : Mode) (hc' : c' = filterHg ops c nc ec mode false) :
+    (∀ x, x ∈ c'.nodes ↔ x ∈ c.nodes ∧ critSel nc mode x.2 = false) ∧
+    (∀ e, e ∈ c'.edges ↔ e ∈ c.edges ∧ critSel ec mode e.2.2 = false ∧
+        ∀ n ∈ ops.nodesOf e.1, n ∉ removedNodes c nc mode) ∧
+    WF ops c' := by
+  have h := C19_filter ops c nc ec mode hwf.nodesNodup hwf.keysNodup
+  simp only at h
+  rw [← hc'] at h
+  refine ⟨h.1, h.2.1, ?_⟩
+  have hf := filterHg_drop ops c nc ec mode hwf.nodesNodup hwf.keysNodup
+  refine ⟨h.2.2.1, h.2.2.2.1, ?_⟩
+  intro e he m hm
+  obtain ⟨he1, _, he3⟩ := (h.2.1 e).mp he
+  have hmn := hwf.closed e he1 m hm
+  obtain ⟨x, hx, hxm⟩ := List.mem_map.mp hmn
+  have hxn : critSel nc mode x.2 = false := by
+    cases hcs : critSel nc mode x.2 with
+    | false => rfl
+    | true =>
+      exfalso
+      apply he3 m hm
+      exact (C19_removed_iff c nc mode m).mpr ⟨x.2, by rw [← hxm]; exact hx, hcs⟩
+  exact List.mem_map.mpr ⟨x, (h.1 x).mpr ⟨hx, hxn⟩, hxm⟩
+
+/-- **`keep_edges=True` in the property's words, on the objects** (`u` = the model's unit weight, `C0x.one`; `Dyn` is what
+`dyn0x_of_inv` gives): nodes exact; hyperedges = the shrunk hyperedges (content `sN` after the node phase) passing the
+hyperedge criteria; the keys of `sN` are the images of the input keys; weighted: every weight is the SUM of the weights of
+the input hyperedges shrunk to that key; unweighted: every weight is still the unit weight. -/
+theorem C19_link_words_keep (ops : KeyOps Key) (hlaw : Lawful ops) (u : Int) (Canon : Key → Prop) (c c' : Content Key Int)
+    (hd : Dyn ops u Canon c) (nc ec : Option Crit) (mode : Mode) (hc' : c' = filterHg ops c nc ec mode true) :
+    let R := removedNodes c nc mode
+    let sN := nodePhase ops c nc mode true
+    (∀ x, x ∈ c'.nodes ↔ x ∈ c.nodes ∧ critSel nc mode x.2 = false) ∧
+    (∀ e, e ∈ c'.edges ↔ e ∈ sN.edges ∧ critSel ec mode e.2.2 = false) ∧
+    WF ops c' ∧
+    (∀ k2, k2 ∈ AL.keys sN.edges ↔ ∃ k ∈ AL.keys c.edges, shrinkAll ops R k = some k2) ∧
+    (∀ e ∈ sN.edges, ∀ n ∈ R, n ∉ ops.nodesOf e.1) ∧
+    (c.weighted = true → ∀ e2 ∈ sN.edges,
+      e2.2.1 = ((c.edges.filter (fun e => decide (shrinkAll ops R e.1 = some e2.1))).map (·.2.1)).sum) ∧
+    (c.weighted = false → ∀ e2 ∈ sN.edges, e2.2.1 = u) := by
+  intro R sN
+  have h := C19_filter_keep ops hlaw c hd.wf nc ec mode
+  have hw := C19_filter_keep_weight ops hlaw c hd.wf nc mode
+  simp only at h hw
+  rw [← hc'] at h
+  refine ⟨h.1, h.2.1, h.2.2.1, h.2.2.2.2.1, h.2.2.2.2.2.1, hw.1, ?_⟩
+  intro hwt e2 he2
+  obtain ⟨e, he, _, hew⟩ := hw.2 hwt e2 he2
+  rw [hew]
+  exact hd.unitw hwt e he
+
+/-- non-vacuity of the links: a weighted `Hypergraph` built by public calls of the C01 model (nodes 1 (type=1),
+2 (type=2), 3; hyperedges (1,2,3):2, (1,3):1, (2):4 in quanta 8, 4, 16); the filter "keep type ∈ {1, missing}" with
+`keep_edges=True` runs without rejection on the STORE and leaves (1,3) with weight 8+4 and the empty hyperedge -/
+def C19.linkDemo : List C01.Cmd :=
+  [.new 0 true [], .on 0 (.addNode 1 (some [(0, 1)])), .on 0 (.addNode 2 (some [(0, 2)])),
+   .on 0 (.addEdge [3, 2, 1] (some 8) (some [(5, 1)])), .on 0 (.addEdge [1, 3] (some 4) none),
+   .on 0 (.addEdge [2] (some 16) (some [(5, 2)]))]
+
+example : ∀ c ∈ C19.linkDemo, c.WF := by
+  intro c hc
+  simp only [C19.linkDemo, List.mem_cons, List.not_mem_nil, or_false] at hc
+  rcases hc with h | h | h | h | h | h <;> subst h <;> simp [C01.Cmd.WF, C01.Op.WF]
+example :
+    ∃ s, (C01.run (C01.init 1) C19.linkDemo)[0]? = some s ∧
+      (view01 s).edges = [(([1, 2, 3], []), (8, [(5, some 1)])), (([1, 3], []), (4, [])), (([2], []), (16, [(5, some 2)]))] ∧
+      removedNodes (view01 s) (some [(0, [some 1, none])]) .keep = [2] ∧
+      (filterVia view01 (rmNode01 true) rmEdge01 s (some [(0, [some 1, none])]) none .keep).2 = true ∧
+      (view01 (filterVia view01 (rmNode01 true) rmEdge01 s (some [(0, [some 1, none])]) none .keep).1).edges =
+        [(([1, 3], []), (12, [(5, some 1)])), (([], []), (16, [(5, some 2)]))] ∧
+      (view01 (filterVia view01 (rmNode01 true) rmEdge01 s (some [(0, [some 1, none])]) none .keep).1).nodes =
+        [(1, [(0, some 1)]), (3, [])] :=
+  ⟨_, rfl, by decide, by decide, by decide, by decide, by decide⟩
+/-- a directed, a temporal and a multiplex object: `remove_node(2, keep_edges=True)` on the store, read as content -/
+example : (view02 (rmNode02 true (C02.run { weighted := true }
+      [.addEdge (.ofLists [1, 2] [3]) (some 8) none, .addEdge (.ofLists [1] [2, 3]) (some 4) none]) 2).1).edges =
+    [(([1], [3]), (12, []))] := by decide
+example : (view03 (rmNode03 true (C03.applyOp (C03.applyOp (C03.Store.new true)
+      (.addEdge [1, 2] (.int 5) (some 8) none)).1 (.addEdge [2] (.int 5) (some 4) none)).1 2).1).edges =
+    [(([1], [5]), (8, []))] := by decide
+example : (view04 (rmNode04 true (C04.run (C04.init true)
+      [.addEdge [1, 2] 7 (some 8) none, .addEdge [1] 7 (some 4) none, .addEdge [2] 3 (some 4) none]) 2).1).edges =
+    [(([1], [7]), (12, []))] := by decide
